@@ -98,7 +98,7 @@ for _pid, _what, _extra_t, _extra_w in (
          "; BitVector's pop/resize/clear clear the storage they vacate (whole-word popcounts rely on it)"),
         ("C09", "indexed accessors of the compressed integer containers refuse reads past the end",
          "; chunks_exact tail-handling rule (R-REMAINDER); no refusing range check on an already narrowed value (R-NARROWCHECK); "
-         "dominating refusing comparison on every value handed to a fixed-width packer of the SortedUintVec builder (R-WIDTHCHECK)",
+         "dominating refusing comparison on every value handed to a fixed-width packer of the SortedUintVec builder (R-WIDTHCHECK); neighbour location of the pair accessor (R-PAIRACCESS)",
          "; no chunked scan of the values ignores its remainder; block base and delta are refused when wider than their configured width"),
         ("C10", "index parameters are guarded before unchecked access; push/pop examine fullness/emptiness before touching a slot",
          "; wrapped-cursor store rule (R-WRAP), empty-by-construction range rule (R-EMPTYRANGE), sync-before-remap ordering (R-ORDER), "
@@ -122,7 +122,7 @@ CLAIMED["C02"] = (
     "MIR layout-event agreement per match-type arm at byte and bit level (R-PAIR), tag->variant tables, store/load path symmetry "
     "with devirtualisation of dyn fields by who-may-write (R-SYM), tag/payload-kind correlation over framing sites (R-TAGKIND), "
     "cleared-before-use analysis of scratch vectors up the private call chain with loop membership (R-SCRATCH), continuation threshold "
-    "of LEB128 size-field writers (R-VARINT.threshold)",
+    "of LEB128 size-field writers (R-VARINT.threshold), def-use provenance of decompression bounds (R-CAPSRC)",
     "static rules over MIR: per CompressionType arm the writer's operand layout equals the reader's; tag k decodes to the variant "
     "with discriminant k; every compress path (incl. raw fallback) has an inverse path in decompress for every impl Compressor and "
     "the hybrid / real-time front ends",
@@ -133,7 +133,8 @@ CLAIMED["C03"] = (
     "MIR store/load path symmetry for every wrapper impl BlobStore and the DictZip entropy stage (R-SYM with codec-family stems), "
     "content flow of persistent fields (R-FLOW), header layout agreement (R-PAIR), batch-vs-single effect agreement (R-SIBLING.batch), "
     "wrapper delegation to the inner store (R-DELEGATE), field restoration in derive-generated deserialisers (R-FLOW.serde), "
-    "flag/payload-kind correlation over gated record construction sites (R-TAGKIND.record)",
+    "flag/payload-kind correlation over gated record construction sites (R-TAGKIND.record), def-use provenance of decompression bounds "
+    "(R-CAPSRC), neighbour location of the pair accessor (R-PAIRACCESS)",
     "static rules over MIR: what put applies get inverts on every put path; save/load carry the content of every persistent field; "
     "header writer and reader agree",
     "three structural clauses of C03; id allocation, len/contains/size bookkeeping, offset arithmetic and bitmap logic are not decided",
